@@ -424,10 +424,20 @@ func (d *Def) getChainMethodReturnType(
 	evaluatedT base.T,
 ) base.T {
 
+	// names already followed: two names that evaluate to each other would be
+	// followed for ever
+	followed := make(map[string]bool)
+
 	for {
 		if !evaluatedT.IsIdentifierType() {
 			break
 		}
+
+		if followed[evaluatedT.ToString()] {
+			break
+		}
+
+		followed[evaluatedT.ToString()] = true
 
 		e.Eval(p, ctx, &evaluatedT)
 
